@@ -5,7 +5,7 @@ from cryptography.hazmat.primitives.asymmetric import ec
 from cryptography.hazmat.primitives import hashes
 from cryptography import x509
 from cryptography.x509.oid import NameOID
-from harness import authsim, regsim
+from harness import authsim, authcat, regsim
 from harness.authsim import Cred, b64u
 from harness.regsim import T0, DAY
 
@@ -37,7 +37,7 @@ def c_origin_substring(s, r):
     s.origin = r.choice(["https://example.com", "example.com:8443", "https://example.com:844", ""])
 def c_origin_list_absent(s, r): s.exp_origin = ["https://a.example", "https://b.example"]; s.origin = r.choice(["https://c.example", "https://a.exampl"])
 def c_token_binding(s, r): s.token_binding = {"status": r.choice(["not-supported", "unknown", ""])}
-def c_rp_other(s, r): s.sign_rp_id = r.choice(["evil.example", "example.co", "Example.com"])
+def c_rp_other(s, r): s.rp_id, s.sign_rp_id = r.choice(authcat.RP_ALIASES)
 def c_up_clear(s, r): s.flags &= ~0x01; s.require_up = True
 def c_uv_clear(s, r): s.flags &= ~0x04; s.require_uv = True
 def c_no_attested(s, r): s.flags &= ~0x40
@@ -155,7 +155,10 @@ def tpm_ecc_unique(s, r):
     nums = Cred(s.kind, slot=s.cred_slot).pk.public_numbers()
     L = authsim.CRV_LEN[Cred(s.kind).pk.curve.name]
     s.k["tpm_unique"] = (nums.x.to_bytes(L, "big"), (nums.y ^ 1).to_bytes(L, "big"))
-def tpm_ecc_curve(s, r): s.k["tpm_curve"] = r.choice([0x0004, 0x0005])
+def tpm_ecc_curve(s, r):
+    # pubArea declares ANOTHER NIST curve than the credential key's (0x0003 P-256, 0x0004 P-384, 0x0005 P-521)
+    own = {"ES256-P256": 0x0003, "ES512-P256": 0x0003, "ES256-P384": 0x0004, "ES256-P521": 0x0005, "ES512-P521": 0x0005}.get(s.kind)
+    s.k["tpm_curve"] = r.choice([c for c in (0x0003, 0x0004, 0x0005) if c != own])
 def tpm_kind_mismatch(s, r):
     s.k["tpm_pub_cred"] = Cred("RS256" if authsim.KINDS[s.kind][0] == "ec" else "ES256-P256", slot=s.cred_slot)
 def tpm_name_other_pub_area(s, r): s.k["tpm_named_pub_area"] = b"\x00\x23\x00\x0b" + bytes(40)
@@ -208,7 +211,8 @@ FORMAT_FAULTS = {
         "two-certificates": set_k(u2f_two_certs=True), "nonzero-aaguid": set_k(aaguid=bytes([0] * 15 + [1])), "leaf-p384": u2f_curve(ec.SECP384R1),
         "leaf-secp256k1": u2f_curve(ec.SECP256K1), "leaf-brainpool256": u2f_curve(ec.BrainpoolP256R1), "leaf-rsa": u2f_rsa_leaf,
         "credential-key-not-ec2": u2f_cred_not_ec, "signed-other-rp": set_k(u2f_signed_rp="other.example"),
-        "signed-other-credential-id": set_k(u2f_signed_cred_id=b"another-credential"), "signed-other-public-key": set_k(u2f_signed_pk=b"\x04" + bytes(64)),
+        "signed-other-credential-id": set_k(u2f_signed_cred_id=b"another-credential"),
+        "signed-over-outer-rawid-not-attested-id": set_k(u2f_signed_cred_id=b"outer-credential-id", outer_raw_id=b"outer-credential-id"), "signed-other-public-key": set_k(u2f_signed_pk=b"\x04" + bytes(64)),
         "signed-other-clientdata": signed_other_cdh, "reserved-byte-nonzero": set_k(u2f_prefix=b"\x01"), "sha384-signature": set_k(u2f_hash=hashes.SHA384),
         "sig-missing": stmt_drop("sig"), "x5c-missing": stmt_drop("x5c"),
     },
@@ -223,6 +227,7 @@ FORMAT_FAULTS = {
         "aik-subject-not-empty": tpm_subject, "aik-san-absent": tpm_san_absent, "aik-unknown-vendor": tpm_san_unknown_vendor, "aik-san-no-model": tpm_san_no_model,
         "aik-eku-wrong": tpm_eku_wrong, "aik-eku-absent": tpm_eku_absent, "aik-ca-true": tpm_bc_ca, "aik-basic-constraints-absent": tpm_bc_absent,
         "ecc-curve-unmappable": set_k(tpm_curve=0x0001), "name-alg-unmappable": set_k(tpm_name_alg_raw="SM3_256"),
+        "alg-unregistered-es384": stmt_set("alg", -35), "alg-unregistered-es256k": stmt_set("alg", -47), "alg-of-other-family-eddsa": stmt_set("alg", -8),
         "sig-missing": stmt_drop("sig"), "certinfo-missing": stmt_drop("certInfo"), "pubarea-missing": stmt_drop("pubArea"), "alg-missing": stmt_drop("alg"), "x5c-missing": stmt_drop("x5c"),
     },
     "apple": {
